@@ -80,6 +80,11 @@ func c17Grid(full bool) []dtStr {
 	for _, s := range []string{"2023-08-15T12:34:56.789Z", "2024-05-05T20:59:19.791423Z", "2023-03-26T01:30:00.4999995Z", "1999-12-31T23:59:59.9999995Z", "2024-02-29T23:59:59.95Z", "2023-11-05T05:59:59.123456789Z"} {
 		out = append(out, dtStr{s, "timestamptz"})
 	}
+	// instants centuries away from now, on either side of what fits a count of
+	// nanoseconds in 64 bits (1677-09-21 .. 2262-04-11)
+	for _, d := range []string{"1500-06-15", "2300-01-01", "1677-09-20", "1677-09-22", "2262-04-11", "2262-04-12", "1000-01-01", "3000-01-01", "5000-06-15", "0800-12-25"} {
+		out = append(out, dtStr{d, "date"}, dtStr{d + "T12:00:00", "timestamp"}, dtStr{d + "T12:00:00+00:00", "timestamptz"})
+	}
 	// non-datetime inputs
 	for _, s := range []string{"", "abc", "2023-13-01", "2023-02-30", "24:00:00", "12:60:00", "12:34:60", "2023-08-15T", "2023-08-15 12:34", "12:34", "2023-8-15", "2023-08-15T12:34:56+1", "2023-08-15T12:34:56 +01", "15/08/2023", "12:34:56+25"} {
 		out = append(out, dtStr{s, "bad"})
